@@ -21,7 +21,8 @@ namespace sqf
             using data_type = sqf::runtime::t_scalar;
         private:
             float m_value;
-            inline static int s_decimals = -1;
+            // Print mode of the runtime that currently executes on this thread (see runtime.cpp, execute_do)
+            inline static thread_local int s_decimals = -1;
         protected:
             bool do_equals(std::shared_ptr<data> other, bool invariant) const override
             {
@@ -53,6 +54,7 @@ namespace sqf
             void value(float f) { m_value = f; }
             operator float() { return m_value; }
             static void set_decimals(int val) { s_decimals = val; }
+            static int decimals() { return s_decimals; }
         };
 
         template<> inline std::shared_ptr<sqf::runtime::data> to_data<int8_t>(int8_t  value)              { return std::make_shared<d_scalar>(value); }
